@@ -566,6 +566,7 @@ class TransportSim:
         cfg["client_idle"] = it[c.choose(len(it))]
         cfg["server_idle"] = it[c.choose(len(it))]
         cfg["initial_rtt"] = (0.1, 0.05, 0.333)[c.choose(3)]
+        cfg["retry"] = bool(p.get("retry_p")) and c.chance(p["retry_p"])
 
         def limit():
             if c.chance(p["small_limits"]):
@@ -646,6 +647,10 @@ class TransportSim:
         self.endpoints = [self.client, self.server]
         self.net.routes[self.client.addr] = self.client
         self.net.routes[self.server.addr] = self.server
+        self.retry_state = {}
+        sconf = self.make_configuration(False)
+        self.server.config = sconf
+        self.server.secrets = sconf.secrets_log_file
         conf = self.make_configuration(True)
         self.client.config = conf
         self.client.secrets = conf.secrets_log_file
@@ -662,22 +667,63 @@ class TransportSim:
         if len(data) < 1200 or not (data[0] & 0x80) or len(data) < 7:
             return False
         version = int.from_bytes(data[1:5], "big")
+        dlen = data[5]
+        if dlen > 20 or len(data) < 7 + dlen:
+            return False
+        dcid = data[6:6 + dlen]
+        slen = data[6 + dlen]
+        if slen > 20 or len(data) < 7 + dlen + slen:
+            return False
+        scid = data[7 + dlen:7 + dlen + slen]
         if version not in self.cfg["server_versions"]:
+            if self.profile.get("allow_vn") and version != 0:
+                # incompatible version negotiation (RFC 9368 2.2): built by the independent codec
+                from wire import header as wh
+
+                vn = wh.build_version_negotiation(scid, dcid, list(self.cfg["server_versions"]))
+                self.net.fired["version-negotiation"] += 1
+                self.net.send(ep, vn, dgram.src)
             return False
         ptype = (data[0] & 0x30) >> 4
         is_initial = ptype == (1 if version == V2 else 0)
         if not is_initial:
             return False
-        dlen = data[5]
-        if dlen > 20 or len(data) < 6 + dlen:
-            return False
-        dcid = data[6:6 + dlen]
-        conf = self.make_configuration(False)
-        ep.config = conf
-        ep.secrets = conf.secrets_log_file
+        kwargs = dict(self.profile.get("server_kwargs", {}))
+        odcid = dcid
+        if self.cfg.get("retry"):
+            # address validation with Retry (what aioquic.asyncio.server does with retry=True),
+            # Retry packet built by the independent codec; the token binds the source address
+            from wire import header as wh
+            from wire import varint as wv
+
+            pos = 7 + dlen + slen
+            try:
+                tlen, pos = wv.dec(data, pos)
+            except Exception:
+                return False
+            token = data[pos:pos + tlen]
+            want = b"verif-retry-token:%s:%d" % (dgram.src[0].encode(), dgram.src[1])
+            if not token:
+                rscid = bootstrap.DET.urandom(8)
+                # stateless, like a real server: the token itself carries ODCID and Retry SCID
+                tok = want + b":" + dcid.hex().encode() + b":" + rscid.hex().encode()
+                pkt = wh.build_retry(version, scid, rscid, tok, dcid)
+                self.net.fired["retry"] += 1
+                self.net.send(ep, pkt, dgram.src)
+                return False
+            parts = token[len(want):].split(b":") if token.startswith(want) else []
+            try:
+                t_odcid, t_rscid = bytes.fromhex(parts[1].decode()), bytes.fromhex(parts[2].decode())
+            except Exception:
+                t_odcid = t_rscid = None
+            if t_rscid is None or dcid != t_rscid:
+                self.net.fired["retry-bad-token"] += 1
+                return False
+            odcid = t_odcid
+            kwargs["retry_source_connection_id"] = t_rscid
+        conf = ep.config
         ep.conn = QuicConnection(
-            configuration=conf, original_destination_connection_id=dcid,
-            **self.profile.get("server_kwargs", {}))
+            configuration=conf, original_destination_connection_id=odcid, **kwargs)
         self.k.trace("server-created", dcid.hex())
         self._post_create(ep)
         return True
